@@ -248,7 +248,12 @@ def index(ctx: Any) -> List[Ob]:
             if present:
                 comps = [c for c in ast.walk(gi.node) if isinstance(c, (ast.ListComp, ast.GeneratorExp))]
                 whole = any(not g_.ifs for c in comps for g_ in c.generators) and all(not g_.ifs for c in comps for g_ in c.generators) or any(isinstance(c, ast.Call) and call_name(c) in ('list', 'values') for c in ast.walk(gi.node))
-                obs.append(ob(R, gi, 'bucket present', 'every service of the bucket is returned (no filter)', bool(gets_i) and whole and None not in rets_i and '[]' not in rets_i, f'returns {sorted(map(repr, rets_i))}'))
+                # ... or a loop over the bucket that appends every element, unconditionally, to the list that is returned
+                loops_i = [lp for lp in ast.walk(gi.node) if isinstance(lp, ast.For)]
+                appended = [st_.value.func.value.id for lp in loops_i for st_ in lp.body if isinstance(st_, ast.Expr) and isinstance(st_.value, ast.Call) and call_name(st_.value) == 'append' and isinstance(st_.value.func, ast.Attribute) and isinstance(st_.value.func.value, ast.Name)]
+                by_loop = (len(loops_i) == 1 and len(appended) == 1 and not any(isinstance(x, (ast.Continue, ast.Break, ast.If)) for x in ast.walk(loops_i[0]))
+                           and all(isinstance(r_.value, ast.Name) and r_.value.id == appended[0] for r_ in ast.walk(gi.node) if isinstance(r_, ast.Return) and r_.value is not None))
+                obs.append(ob(R, gi, 'bucket present', 'every service of the bucket is returned (no filter)', bool(gets_i) and (by_loop or (whole and None not in rets_i and '[]' not in rets_i)), f'returns {sorted(map(repr, rets_i))}'))
             else:
                 obs.append(ob(R, gi, 'no bucket for the key', 'an empty list is returned', bool(gets_i) and rets_i <= {'[]'} and bool(rets_i) and not und_i, f'returns {sorted(map(repr, rets_i))}'))
     # one registration per name: when the index buckets hold the service OBJECTS (not names that are resolved through the
